@@ -153,7 +153,7 @@ Theorem C01_ls_multi_round_order_independent : forall co so cohorts cohorts' p o
     q =v= q' /\ srv_eq s s' /\ Forall2 (fun dg dg' => Permutation (map fst dg) (map fst dg')) dgs dgs'.
 Proof. exact ls_run_order_independent. Qed.
 
-(* non-vacuity: two clients (3 and 0 examples... here 2 and 1), one round, SGD(1/2) clients, SGD(1) server *)
+(* non-vacuity: two clients with 2 and 1 examples, one round, SGD(1/2) clients, SGD(1) server *)
 Example C01_example :
   let co := mkSgd (1 # 2) 0 false in
   let c1 := mkClient 1%Z 2%Z [0; 0] [[([1; 0], 1); ([0; 1], 1)]] in
